@@ -596,7 +596,7 @@ def _st_scene(draw, maxsize):
     style = draw(st.sampled_from([0, 0, 1, 2]))
     rep = draw(st.booleans())
     which = draw(st.sampled_from(
-        ["sibling", "sibling", "cross", "mutate", "evict", "params", "random",
+        ["sibling", "sibling", "cross", "mutate", "evict", "evict", "params",
          "random"]))
     if which == "sibling":
         a, b = draw(st.sampled_from(_SIB_DS if func == 3 else _SIB_KDE))
